@@ -104,4 +104,9 @@ CHECKS = {
         technique="life-cycle reference-model monitor (recipe / ready / error per declared key) over histories of read, metadata, contains, list, remove, clean (through the documented -R-meta query) and re-read; call-log monitor for exactly-once evaluation incl. dependency recipes; expected bytes = reference-interpreter value of the harness-resolved absolute query serialised by the key's extension",
         text="Seeded recipes.yaml files (plain and dictionary form, local and sub-directory sections, './' and '../' references, failing recipes, txt/json/pickle results) at depth 0-2 of memory- and directory-backed recipe stores used directly or mounted at one/two-component prefixes. Exploration.",
         note="Global cache is NoCache; re-reads of failing recipes are not constrained."),
+    "C20": dict(
+        category=_EXPL, design_ref="DESIGN.md section 4, C20",
+        technique="differential monitor: Flask test client on the real blueprint vs the library called directly - query responses vs in-process evaluation serialised by extension; cache/store endpoint histories vs an identically prepared twin with full views compared after every call; exhaustive enable/disable histories (length <= 4) of remote registration; RemoteStore (HTTP calls rebound to the test client) vs the twin store",
+        text="Seeded C01-vocabulary queries with all result types and a dozen extensions (plain, URL arguments, JSON body, failing), seeded cache and store endpoint histories on memory / directory / default-composition stores, all 31 registration histories x GET/POST, RemoteStore histories. Exploration.",
+        note="No sockets: the WSGI app is driven in-process; query text is percent-quoted on the way in."),
 }
